@@ -82,10 +82,17 @@ type Ctx struct {
 	T, F  *Term
 	Vars  []*Term // declared variables, in order
 	vname map[string]*Term
+	memo  map[memoKey]*Term
+}
+
+type memoKey struct {
+	op     Op
+	a, b   int
+	x, y   int
 }
 
 func NewCtx() *Ctx {
-	c := &Ctx{tab: map[key]*Term{}, nary: map[string]*Term{}, vname: map[string]*Term{}}
+	c := &Ctx{tab: map[key]*Term{}, nary: map[string]*Term{}, vname: map[string]*Term{}, memo: map[memoKey]*Term{}}
 	c.T = c.mk(key{op: OpConst, width: 0, val: 1}, nil)
 	c.F = c.mk(key{op: OpConst, width: 0, val: 0}, nil)
 	return c
@@ -320,7 +327,13 @@ func (c *Ctx) Eq(a, b *Term) *Term {
 	}
 	// push equality with a constant through ite-trees with constant leaves
 	if b.IsConst() && a.Op == OpIte && constLeafIte(a, 24) {
-		return c.Ite(a.Args[0], c.Eq(a.Args[1], b), c.Eq(a.Args[2], b))
+		mk := memoKey{op: OpEq, a: a.ID, b: b.ID}
+		if r, ok := c.memo[mk]; ok {
+			return r
+		}
+		r := c.Ite(a.Args[0], c.Eq(a.Args[1], b), c.Eq(a.Args[2], b))
+		c.memo[mk] = r
+		return r
 	}
 	if b.IsConst() && a.Op == OpZext {
 		// zext(x) == k
@@ -365,11 +378,19 @@ func (c *Ctx) cmp(op Op, a, b *Term) *Term {
 	}
 	// comparisons of zero-extended values with small constants: signed == unsigned
 	if (a.IsConst() || constLeafIte(a, 24)) && (b.IsConst() || constLeafIte(b, 24)) {
-		if a.Op == OpIte {
-			return c.Ite(a.Args[0], c.cmp(op, a.Args[1], b), c.cmp(op, a.Args[2], b))
+		mk := memoKey{op: op, a: a.ID, b: b.ID}
+		if r, ok := c.memo[mk]; ok {
+			return r
 		}
-		if b.Op == OpIte {
-			return c.Ite(b.Args[0], c.cmp(op, a, b.Args[1]), c.cmp(op, a, b.Args[2]))
+		var r *Term
+		if a.Op == OpIte {
+			r = c.Ite(a.Args[0], c.cmp(op, a.Args[1], b), c.cmp(op, a.Args[2], b))
+		} else if b.Op == OpIte {
+			r = c.Ite(b.Args[0], c.cmp(op, a, b.Args[1]), c.cmp(op, a, b.Args[2]))
+		}
+		if r != nil {
+			c.memo[mk] = r
+			return r
 		}
 	}
 	return c.mk(key{op: op}, []*Term{a, b})
@@ -469,10 +490,22 @@ func (c *Ctx) arith(op Op, a, b *Term) *Term {
 	}
 	// distribute over ite-trees with constant leaves when the other side is constant
 	if b.IsConst() && a.Op == OpIte && constLeafIte(a, 24) {
-		return c.Ite(a.Args[0], c.arith(op, a.Args[1], b), c.arith(op, a.Args[2], b))
+		mk := memoKey{op: op, a: a.ID, b: b.ID, x: 1}
+		if r, ok := c.memo[mk]; ok {
+			return r
+		}
+		r := c.Ite(a.Args[0], c.arith(op, a.Args[1], b), c.arith(op, a.Args[2], b))
+		c.memo[mk] = r
+		return r
 	}
 	if a.IsConst() && b.Op == OpIte && constLeafIte(b, 24) {
-		return c.Ite(b.Args[0], c.arith(op, a, b.Args[1]), c.arith(op, a, b.Args[2]))
+		mk := memoKey{op: op, a: a.ID, b: b.ID, x: 2}
+		if r, ok := c.memo[mk]; ok {
+			return r
+		}
+		r := c.Ite(b.Args[0], c.arith(op, a, b.Args[1]), c.arith(op, a, b.Args[2]))
+		c.memo[mk] = r
+		return r
 	}
 	return c.mk(key{op: op, width: w}, []*Term{a, b})
 }
@@ -500,7 +533,13 @@ func (c *Ctx) Extract(a *Term, hi, lo int) *Term {
 		return c.Extract(a.Args[0], hi, lo)
 	}
 	if a.Op == OpIte && constLeafIte(a, 24) {
-		return c.Ite(a.Args[0], c.Extract(a.Args[1], hi, lo), c.Extract(a.Args[2], hi, lo))
+		mk := memoKey{op: OpExtract, a: a.ID, x: hi, y: lo}
+		if r, ok := c.memo[mk]; ok {
+			return r
+		}
+		r := c.Ite(a.Args[0], c.Extract(a.Args[1], hi, lo), c.Extract(a.Args[2], hi, lo))
+		c.memo[mk] = r
+		return r
 	}
 	return c.mk(key{op: OpExtract, width: w, lo: lo}, []*Term{a})
 }
@@ -519,7 +558,13 @@ func (c *Ctx) Zext(a *Term, to int) *Term {
 		return c.Zext(a.Args[0], to)
 	}
 	if a.Op == OpIte && constLeafIte(a, 24) {
-		return c.Ite(a.Args[0], c.Zext(a.Args[1], to), c.Zext(a.Args[2], to))
+		mk := memoKey{op: OpZext, a: a.ID, x: to}
+		if r, ok := c.memo[mk]; ok {
+			return r
+		}
+		r := c.Ite(a.Args[0], c.Zext(a.Args[1], to), c.Zext(a.Args[2], to))
+		c.memo[mk] = r
+		return r
 	}
 	return c.mk(key{op: OpZext, width: to, lo: to - a.Width}, []*Term{a})
 }
